@@ -142,6 +142,9 @@ func failing() []hx.Op {
 		{K: hx.VSetMeta, I: "i", ID: "b", M: map[string]any{"s": "q"}},
 		{K: hx.VSetMeta, I: "i", ID: "ghost", M: map[string]any{"s": "q"}},
 		{K: hx.VEvolve, I: "i", ID: "ghost", V: v(1, 1), S2: "r"},
+		// the new version cannot be stored: wrong dimension, metadata that cannot be journaled
+		{K: hx.VEvolve, I: "i", ID: "a", V: v(1, 2, 3), S2: "r"},
+		{K: hx.VEvolve, I: "i", ID: "a", V: v(1, 1), M: map[string]any{"x": hx.NaNMarker}, S2: "r"},
 		{K: hx.VAdd, I: "i", ID: "n1", V: v(1, 2, 3)},
 		{K: hx.VAddBatch, I: "i", Items: []hx.Item{{ID: "n1", V: v(8, 8)}, {ID: "n2", V: v(1, 2, 3)}}},
 		{K: hx.VAdd, I: "i", ID: "n1", V: nil, M: map[string]any{"s": "entity"}},
